@@ -1,6 +1,11 @@
 package main
 
-import "verifharness/internal/hx"
+import (
+	"fmt"
+	"strings"
+
+	"verifharness/internal/hx"
+)
 
 // sizeClasses: lengths around the block sizes and fixed scratch-buffer sizes a
 // refactoring is likely to introduce (32/64/128/256 and those minus the fixed
@@ -14,7 +19,90 @@ func patterned(n int, tag int) []byte {
 	for i := range b {
 		b[i] = byte('a' + (i*7+tag*11+i/26)%26)
 	}
+	pdict.add(n, tag, b)
 	return b
+}
+
+// ---- compact Coq terms for byte strings that contain long patterned runs ----
+// (Lib/SigPatt.v: pslice n tag off len = patterned(n, tag)[off : off+len])
+
+type pbase struct {
+	n, tag int
+	p      []byte
+	idx    map[string][]int
+}
+
+type pdictT struct{ bases []*pbase }
+
+var pdict pdictT
+
+const pgram = 8
+
+func (d *pdictT) add(n, tag int, p []byte) {
+	for _, b := range d.bases {
+		if b.n == n && b.tag == tag {
+			return
+		}
+	}
+	if n < 48 {
+		return
+	}
+	b := &pbase{n: n, tag: tag, p: append([]byte{}, p...), idx: map[string][]int{}}
+	for j := 0; j+pgram <= n; j++ {
+		k := string(p[j : j+pgram])
+		if len(b.idx[k]) < 4 {
+			b.idx[k] = append(b.idx[k], j)
+		}
+	}
+	d.bases = append(d.bases, b)
+}
+
+// bz prints a byte string as a Coq term of type bytes: literals, with every run
+// of >= 32 bytes that occurs in a registered patterned string replaced by a pslice.
+func bz(b []byte) string {
+	if len(b) < 48 || len(pdict.bases) == 0 {
+		return hx.Bytes(b)
+	}
+	var parts []string
+	lit := 0
+	flush := func(upto int) {
+		if upto > lit {
+			parts = append(parts, hx.Bytes(b[lit:upto]))
+		}
+	}
+	i := 0
+	for i+pgram <= len(b) {
+		bestLen, bestOff := 0, 0
+		var best *pbase
+		k := string(b[i : i+pgram])
+		for _, base := range pdict.bases {
+			for _, j := range base.idx[k] {
+				l := 0
+				for i+l < len(b) && j+l < base.n && b[i+l] == base.p[j+l] {
+					l++
+				}
+				if l > bestLen {
+					bestLen, bestOff, best = l, j, base
+				}
+			}
+		}
+		if bestLen >= 32 {
+			flush(i)
+			parts = append(parts, fmt.Sprintf("pslice %d%%nat %d%%nat %d%%nat %d%%nat", best.n, best.tag, bestOff, bestLen))
+			i += bestLen
+			lit = i
+		} else {
+			i++
+		}
+	}
+	flush(len(b))
+	if len(parts) == 0 {
+		return "[]"
+	}
+	if len(parts) == 1 && strings.HasPrefix(parts[0], "[") {
+		return parts[0]
+	}
+	return "(" + strings.Join(parts, " ++ ") + ")"
 }
 
 // pickSizes: every class in the thorough tier; in the quick tier the mandatory
